@@ -65,13 +65,14 @@ func mkTarGz(es []tarEntry) ([]byte, error) {
 			tf = tar.TypeReg
 		}
 		h := &tar.Header{Name: e.Name, Mode: 0o644, Size: int64(len(e.Body)), Typeflag: tf, Linkname: e.Linkname, Format: tar.FormatPAX}
-		if tf != tar.TypeReg {
+		carries := tf == tar.TypeReg || tf == tar.TypeCont || tf == 'Z' // archive/tar reads a body for every flag that is not header-only
+		if !carries {
 			h.Size = 0
 		}
 		if err := tw.WriteHeader(h); err != nil {
 			return nil, err
 		}
-		if tf == tar.TypeReg {
+		if carries {
 			if _, err := tw.Write(e.Body); err != nil {
 				return nil, err
 			}
@@ -292,7 +293,13 @@ func sizesCase(m *Model, rep *Report, r *Rng, seed uint64, idx int) {
 		case 2:
 			sz = 0
 		}
-		es = append(es, tarEntry{Name: fmt.Sprintf("c/f%d", i), Body: bytes.Repeat([]byte("z"), sz)})
+		// the entry's type flag: a regular file, or (rarely) another flag whose entries carry data all the same
+		// (contiguous file '7', a vendor flag 'Z'): the limits are about bytes, not about the flag
+		tf := Pick(r, []byte{0, 0, 0, 0, 0, 0, tar.TypeCont, 'Z'})
+		if tf != 0 {
+			rep.H("sizes:data-carrying-flag")
+		}
+		es = append(es, tarEntry{Name: fmt.Sprintf("c/f%d", i), Body: bytes.Repeat([]byte("z"), sz), Typeflag: tf})
 		sizes = append(sizes, sz)
 	}
 	if r.Chance(30) {
